@@ -44,7 +44,7 @@ Record flavour := mkFlavour {
   fl_state : Type;
   fl_pub : fl_state -> pubstate;                    (* log, closed flag, the claim held *)
   fl_with_pub : fl_state -> pubstate -> fl_state;
-  fl_step : mode -> (Z -> Z -> Z) -> fl_state -> op -> fl_state * outcome Z;
+  fl_step : mode -> (Z -> Z -> list Z -> Z) -> fl_state -> op -> fl_state * outcome Z;
   fl_position : mode -> fl_state -> outcome Z
 }.
 Definition shared : flavour := mkFlavour pubstate (fun s => s) (fun _ p => p) pub_step pub_position.
@@ -83,7 +83,7 @@ Definition pub_op (p : pubstate) (o : sop) : op :=
    messages the assembler handed to the delegate (session id, bytes) *)
 Definition rres := (outcome Z * list dlv * list msg)%type.
 
-Definition sys_step (F : flavour) (m : mode) (rv : Z -> Z -> Z) (s : sys F) (o : sop) : sys F * rres :=
+Definition sys_step (F : flavour) (m : mode) (rv : Z -> Z -> list Z -> Z) (s : sys F) (o : sop) : sys F * rres :=
   match o with
   | SPoll limit =>
       match image_poll (sys_log s) (sy_img s) limit with
@@ -106,10 +106,10 @@ Definition sys_step (F : flavour) (m : mode) (rv : Z -> Z -> Z) (s : sys F) (o :
       (mkSys p' (sy_img s) (sy_asm s) open', (r, [], []))
   end.
 
-Fixpoint sys_run (F : flavour) (m : mode) (rv : Z -> Z -> Z) (s : sys F) (ops : list sop) : sys F :=
+Fixpoint sys_run (F : flavour) (m : mode) (rv : Z -> Z -> list Z -> Z) (s : sys F) (ops : list sop) : sys F :=
   match ops with [] => s | o :: r => sys_run F m rv (fst (sys_step F m rv s o)) r end.
 
-Fixpoint sys_trace (F : flavour) (m : mode) (rv : Z -> Z -> Z) (s : sys F) (ops : list sop) : list (sop * rres) :=
+Fixpoint sys_trace (F : flavour) (m : mode) (rv : Z -> Z -> list Z -> Z) (s : sys F) (ops : list sop) : list (sop * rres) :=
   match ops with
   | [] => []
   | o :: r => let '(s', x) := sys_step F m rv s o in (o, x) :: sys_trace F m rv s' r
@@ -143,7 +143,7 @@ Definition env_ok (F : flavour) (m : mode) (s : sys F) (o : sop) : bool :=
   | SPoll _ | SSetConnected _ | SClose => true
   end.
 
-Fixpoint contract (F : flavour) (m : mode) (rv : Z -> Z -> Z) (s : sys F) (ops : list sop) : bool :=
+Fixpoint contract (F : flavour) (m : mode) (rv : Z -> Z -> list Z -> Z) (s : sys F) (ops : list sop) : bool :=
   match ops with
   | [] => true
   | o :: r => env_ok F m s o && contract F m rv (fst (sys_step F m rv s o)) r
@@ -161,7 +161,7 @@ Definition event_of (p : pubstate) (o : sop) (x : rres) : event :=
   | _ => EvEnv
   end.
 
-Fixpoint sys_events (F : flavour) (m : mode) (rv : Z -> Z -> Z) (s : sys F) (ops : list sop) : list event :=
+Fixpoint sys_events (F : flavour) (m : mode) (rv : Z -> Z -> list Z -> Z) (s : sys F) (ops : list sop) : list event :=
   match ops with
   | [] => []
   | o :: r => let '(s', x) := sys_step F m rv s o in
@@ -199,7 +199,7 @@ Definition sys_obs (F : flavour) (m : mode) (s' : sys F) (x : rres) :=
   let '(r, ds, ms) := x in
   (r, map (frag_obs m (sys_log s')) ds, map msg_obs ms, fl_position F m (sy_pub s'), image_position (sy_img s')).
 
-Fixpoint sys_observe (F : flavour) (m : mode) (rv : Z -> Z -> Z) (s : sys F) (ops : list sop) :=
+Fixpoint sys_observe (F : flavour) (m : mode) (rv : Z -> Z -> list Z -> Z) (s : sys F) (ops : list sop) :=
   match ops with
   | [] => []
   | o :: r => let '(s', x) := sys_step F m rv s o in sys_obs F m s' x :: sys_observe F m rv s' r
